@@ -327,6 +327,8 @@ static void ep_mul_reg_imp(ep_t r, const ep_t p, const bn_t k) {
 	size_t l;
 
 	bn_null(m);
+	ep_null(u);
+	ep_null(v);
 
 	RLC_TRY {
 		bn_new(m);
